@@ -152,6 +152,49 @@ def run(loader, R, tier):
     R.floor("StrPrinter/JuliaStrPrinter methods scanned", fns, 60)
     R.floor("unordered-container walks in StrPrinter", sites, 1)
 
+    # ------------------------------------------------------------ R16.6
+    # print order: PrinterBasicCmp (the comparator of the sorted containers
+    # the printer walks) tests `__cmp__(...) == -1`.  It is a strict weak
+    # order only if every three-way comparison returns exactly -1/0/1: with
+    # another negative value two different terms are "equivalent" keys and
+    # one of them is silently dropped from the printed sum.
+    pbc = [f for f in prog.functions.values()
+           if (f.get("cls") or "").endswith("PrinterBasicCmp")
+           and f.get("n") == "operator()" and f.get("body")]
+    if not pbc:
+        raise AnalysisBroken("PrinterBasicCmp::operator() not found")
+    tests_minus_one = any(
+        n.get("k") in ("bin", "op") and n.get("op") == "=="
+        and any(show(x) == "-1" for x in n.get("a", ()))
+        for f in pbc for n in walk(f["body"]))
+    R.rule("R16.6", "the printer's ordering comparator is a strict weak "
+                    "order: it tests __cmp__ == -1, so every three-way "
+                    "comparison must return exactly -1, 0 or 1")
+    R.instance("R16.6", "PrinterBasicCmp", sample={
+        "tests_equal_minus_one": tests_minus_one})
+    if tests_minus_one:
+        from rules.c02 import range_check
+
+        class _Sub:
+            """collects R2.1's verdicts under this property's rule id"""
+            def __init__(self, R):
+                self.R = R
+
+            def instance(self, rid, key, **kw):
+                self.R.instance("R16.6", key, **{k: v for k, v in kw.items()
+                                                 if k != "sample"})
+
+            def violation(self, rid, key, where, what, detail=None):
+                self.R.violation(
+                    "R16.6", key, where, what + " — PrinterBasicCmp tests "
+                    "`__cmp__ == -1`, so terms ordered by this comparison "
+                    "can collapse into one key and disappear from the "
+                    "printed expression")
+
+            def floor(self, *a):
+                self.R.floor(*a)
+        range_check(prog, _Sub(R))
+
     # ------------------------------------------------------------ R16.5
     # A number that prints with a leading '-' must not have Atom precedence:
     # as the base of a power it would lose its parentheses ((-2)**x printing
